@@ -39,7 +39,7 @@ package storage
 //@ func (*TxRepository).GetNewSafe
 //@   serves C07 C12
 //@   atomic unconfirmedLock
-//@   requires InvU(repo) && memPool != nil && state.InvTx(memPool)
+//@   requires InvU(repo) && memPool != nil && state.InvTx(memPool) && !held(memPool.mutex)
 //@   let now = UnixNano(beforeTime)
 //@   ensures warranted: forall(t bitcoin.Hash32, has(repo.unconfirmed, t) && repo.unconfirmed[t].safe && !old(repo.unconfirmed[t].safe) ==>
 //@        !old(repo.unconfirmed[t].unsafe) && UnixNano(old(repo.unconfirmed[t].time)) < now
@@ -50,6 +50,7 @@ package storage
 //@   ensures never_unsafe: forall(t bitcoin.Hash32, has(repo.unconfirmed, t) && old(repo.unconfirmed[t].unsafe) ==> repo.unconfirmed[t].safe == old(repo.unconfirmed[t].safe))
 //@   ensures domain: same(repo.unconfirmed) && uSame(repo) && result1 == nil
 //@   ensures inv: InvU(repo)
+//@   loop 0 invariant !held(memPool.mutex)
 //@   loop 0 invariant same(repo.unconfirmed) && uSame(repo) && InvU(repo) && fresharr(result) && state.InvTx(memPool)
 //@   loop 0 invariant forall(x *unconfirmedTx, !fresh(x) ==> x.time == old(x.time) && x.unsafe == old(x.unsafe) && x.trusted == old(x.trusted) && (old(x.safe) ==> x.safe))
 //@   loop 0 invariant forall(t bitcoin.Hash32, has(repo.unconfirmed, t) && !visited(t) ==> repo.unconfirmed[t].safe == old(repo.unconfirmed[t].safe))
@@ -459,7 +460,7 @@ package storage
 //@   assert crash_loadable_wr at after store.Write : [C10] loadableAt(q(height))
 //@   ensures rejected: height > old(repo.height) || height < 0 ==> result != nil && stsame() && memSame(repo) && heightsSame(repo)
 //@   ensures failed_memory_unchanged: result != nil ==> memSame(repo) && heightsSame(repo)
-//@   ensures failed_store_consistent: result != nil ==> InvFull(repo) && InvTop(repo)
+//@   ensures failed_store_consistent: [C09 C10] result != nil ==> InvFull(repo) && InvTop(repo)
 //@   ensures reverted: result == nil ==> repo.height == height && 0 <= height && height <= old(repo.height) && InvMem(repo)
 //@   ensures chain_prefix: result == nil ==> forall(k, 0, len(repo.lastHeaders), repo.lastHeaders[k] == old(Hdr(repo, 1000*q(height) + k)))
 //@   ensures stored: result == nil ==> fileIs(q(height), repo.lastHeaders) && InvTop(repo)
